@@ -63,8 +63,9 @@ def run(ctx):
     # ---------------- closed form: ideal reservoir and constant-diffusivity tables
     liquid = rescorr.synth_table("liquid", 60)
     cum = float(refsol.fourier_cumflux(T_END)[0])
+    shifted = rescorr.synth_table("shifted", 60)   # pseudopressure measured from a reference inside the table: m_f < 0 for deep drawdown
     for ratio in ratios:
-        for kind, tb in (("ideal", None), ("single", liquid)):
+        for kind, tb in (("ideal", None), ("single", liquid)) + ((("single", shifted),) if ratio <= 0.5 else ()):
             lad = ladder(kind, ratio, nxs, tb)
             ev += len(lad)
             inp = dict(kind=kind, table="constant diffusivity" if tb is not None else None, p_frac_over_p_initial=ratio, nx_ladder=list(nxs), t_end=T_END)
